@@ -104,13 +104,16 @@ def run_rule(res, facts, tier):
     for kind, fn, valsets in (('text', gs, svals), ('number', gn, nvals)):
         for vals in valsets:
             w.values = vals
-            for s in seqs:
-                sorter = Obj(NS + 'NodeSorter', {'m_stringResultsCache': Vec([]), 'm_numberResultsCache': Vec([]), 'm_keys': Vec([0, 1]), 'm_scratchVector': Vec([0, 1, 2])})
+            for si, s in enumerate(seqs):
+                # the vector of (node, original position) entries is the one std::stable_sort is permuting while the values are asked for: in every third run it is out of order
+                order = [(0, 1, 2), (2, 0, 1), (1, 2, 0)][si % 3]
+                entries = Vec([Obj(NS + 'NodeSorter::VectorEntry', {'m_node': i, 'm_position': i}) for i in order])
+                sorter = Obj(NS + 'NodeSorter', {'m_stringResultsCache': Vec([]), 'm_numberResultsCache': Vec([]), 'm_keys': Vec([0, 1]), 'm_scratchVector': entries})
                 # any further member of the sorter a change may add starts empty (a vector)
                 k0 = facts.K.get(NS + 'NodeSorter')
                 for fld in (k0 or {}).get('fields', []):
                     sorter.fields.setdefault(fld['n'], Vec([]))
-                comp = Obj(NS + 'NodeSorter::NodeSortKeyCompare', {'m_sorter': sorter, 'm_nodeSortKeys': Vec([0, 1]), 'm_nodes': Vec([0, 1, 2]), 'm_executionContext': 'ECTX'})
+                comp = Obj(NS + 'NodeSorter::NodeSortKeyCompare', {'m_sorter': sorter, 'm_nodeSortKeys': Vec([0, 1]), 'm_nodes': entries, 'm_executionContext': 'ECTX'})
                 w.calls = 0
                 bad = None
                 try:
